@@ -325,22 +325,13 @@ func checkC16(c *km.Ctx) {
 		if fn == nil {
 			continue
 		}
-		held := ls.Held(fn)
-		var lookup, del ssa.Instruction
-		km.Instrs(fn, func(in ssa.Instruction) {
-			if lk, ok := in.(*ssa.Lookup); ok && mentionsField(lk.X, "localAuthData") {
-				lookup = lk
-			}
-			if cl, ok := in.(*ssa.Call); ok {
-				if b, ok := cl.Common().Value.(*ssa.Builtin); ok && b.Name() == "delete" && mentionsField(cl.Common().Args[0], "localAuthData") {
-					del = in
-				}
-			}
-		})
-		if lookup == nil || del == nil {
-			r.Add("R-C16-3", km.FuncName(fn), "challenge lookup + consume", c.P.Pos(fn.Pos()), "lookup and delete of the challenge record", sprintf("lookup=%v delete=%v", lookup != nil, del != nil), false)
+		cc := findChallengeConsume(c, fn)
+		if cc == nil {
+			r.Add("R-C16-3", km.FuncName(fn), "challenge lookup + consume", c.P.Pos(fn.Pos()), "lookup and delete of the challenge record, here or in a helper", "none found", false)
 			continue
 		}
+		held := ls.Held(cc.fn)
+		var lookup, del ssa.Instruction = cc.lookup, cc.del
 		one := held[lookup][stateMutex] && held[del][stateMutex]
 		for b := range blocksBetween(lookup.Block(), del.Block()) {
 			for _, in := range b.Instrs {
